@@ -135,7 +135,7 @@ static bool relevant(const std::string& prop, const std::string& vprops, const C
     if (prop == "C02") return mem || has_prop(vprops, "CRASH");
     if (prop == "C09") return generic && (is_pair_op(k) || e.seen_pair_op);
     if (prop == "C10") return (generic || mem) && (k == O_RS || e.fill_phase);
-    if (prop == "C11") return generic && is_ref_op(k);
+    if (prop == "C11") return (generic && is_ref_op(k)) || false;
     if (prop == "C12") return (generic || mem) && is_elem_op(k);
     if (prop == "C18") return (generic || mem) && e.pre_empty;
     return false;
